@@ -36,8 +36,8 @@ CHECKS.update({
  'C14': dict(engine='E2', technique='thread-modular step check on nsync_mu_lock/rlock/trylock/rtrylock/lock_slow with ghost sleep counter; retry loop unrolled past LONG_WAIT_THRESHOLD in the thorough tier',
              text='Solver-decided obligations (1) never-waited threads cannot acquire past MU_LONG_WAIT, (2) MU_LONG_WAIT is set at the 30th fruitless wake-up and cleared only by its setter on acquiring, (3) woken threads re-queue at the front. The bound on the number of sleeps derived from them is a paper argument.',
              note=E3NOTE, ref='2 C14'),
- 'C16': dict(engine='E2+E3', technique='thread-modular guarantee check on the debug-state functions (mutex and cv word) plus bounded interleavings with a debug caller',
-             text='Concurrency half only: the debug-state functions change no lock bit and release the spinlocks they take without disturbing other bits, for every interference; C01/C02 oracles with a debug caller in bounded interleavings. The buffer half (writes inside buf[0..n-1], NUL, "...") is NOT decided by a solver check (see DESIGN.md).',
+ 'C16': dict(engine='E2+E3', technique='thread-modular guarantee check on the debug-state functions (mutex and cv word), bounded interleavings with a debug caller, and sequential CBMC on the real emit_c for every buffer size',
+             text='Concurrency half only: the debug-state functions change no lock bit and release the spinlocks they take without disturbing other bits, for every interference; C01/C02 oracles with a debug caller in bounded interleavings. Buffer half: the real emit_init/emit_c (through which every output byte goes) for every buffer size 0..80 and every text up to 90 characters: in bounds, NUL-terminated, "..." when truncated; the varargs formatter above emit_c is not encoded (see DESIGN.md).',
              note=E3NOTE, ref='2 C16'),
  'C19': e3('Single-thread symbolic execution (one context, loops unrolled) of nsync_note_new / nsync_counter_new with the allocation failing or not, parent shape and deadline kind solver-chosen: NULL result, parent unchanged, unlocked and usable.',
            tech='bounded symbolic execution of the real constructors with a failing allocator (seqcc -> CBMC)'),
